@@ -653,16 +653,11 @@ func interceptorFunc(name string) func(string) bool {
 	case "min5": // a user interceptor that rejects short candidates and accepts longer ones
 		return func(s string) bool { return len(s) >= 5 }
 	case "\\d+":
-		return interceptorFunc("digit")
+		// registered under the text of a regexp rule, but with different semantics than that regexp:
+		// domains added before the registration keep the regexp, domains added after it use this
+		return interceptorFunc("word")
 	case "[a-z]+":
-		return func(s string) bool {
-			for i := 0; i < len(s); i++ {
-				if s[i] < 'a' || s[i] > 'z' {
-					return false
-				}
-			}
-			return len(s) > 0
-		}
+		return interceptorFunc("word") // likewise: not what the regexp of that text accepts
 	}
 	return nil
 }
